@@ -49,8 +49,9 @@ def configs(tier, rng):
     allc.append(dict(fam="ternary", alpha=alpha, thr=thr))
   if tier == "thorough":
     return allc
-  idx = rng.choice(len(allc), size=90, replace=False)
-  return [allc[i] for i in sorted(idx)]
+  def key(c):
+    return (c["fam"], c.get("ste"), c.get("slope") is None, c.get("mv") is None, c.get("rub") is None, c.get("iqc"), str(c.get("alpha")), c.get("use01"), c.get("thr"))
+  return vlib.stratified(allc, key, 90, rng, per=1)
 
 
 def desc(c):
